@@ -213,3 +213,107 @@ func VerifC17Ballots() {
 		}
 	}
 }
+
+// vote2: the model's reaction to a vote of key #c (of the ORIGINAL list) for ballot A or B when the electorate may
+// have changed in between: a repeated vote adds nothing, and the decision fires in the first invocation after
+// which the ballot holds at least the CURRENT threshold of distinct voters. (With an unchanged electorate this is
+// vote() without staleness: a ballot never holds the threshold before its last vote.)
+func vote2(forA bool, c, threshold int) bool {
+	if forA {
+		if !votedA[c] {
+			votedA[c] = true
+			cntA++
+		}
+		if cntA >= threshold {
+			cntA = 0
+			for i := 0; i < 7; i++ {
+				votedA[i] = false
+			}
+			return true
+		}
+		return false
+	}
+	if !votedB[c] {
+		votedB[c] = true
+		cntB++
+	}
+	if cntB >= threshold {
+		cntB = 0
+		for i := 0; i < 7; i++ {
+			votedB[i] = false
+		}
+		return true
+	}
+	return false
+}
+
+// C17 with an electorate that SHRINKS while ballots are pending: three stored keys (threshold 3); symbolic
+// members vote twice for configuration ballot A and once for ballot B; all three then vote the Alphabet down
+// to its first two keys (threshold 2, the dropped key can no longer vote); then four more invocations by
+// symbolic callers, for A, for A with another value, for B, for B with another value. After every invocation
+// the two configuration values are what the model says: an accepted decision takes effect exactly once and
+// takes only its own ballot away.
+func VerifC17ShrunkAlphabet() {
+	deployNeoFS(3, true)
+	stranger := vAcct("stranger")
+	cntA, cntB = 0, 0
+	for i := 0; i < 7; i++ {
+		votedA[i], votedB[i] = false, false
+	}
+	idA, idB, idU := []byte{0xA0, 1}, []byte{0xB0, 2}, []byte{0xC0, 3}
+	var valA, valB []byte // the configuration values in force (nil: never set)
+	n, threshold := 3, 3
+	for s := 0; s < 8; s++ {
+		if s == 3 { // the Alphabet is voted down to {al0, al1} by all three members
+			for i := 0; i < 3; i++ {
+				vSign(vAcct(alTags[i]), true)
+				ok, _ := vInvoke("neofs", "alphabetUpdate", idU, []any{vKey("al0"), vKey("al1")})
+				vAssume(ok)
+			}
+			_, r := vRead("neofs", "alphabetList")
+			vAssume(len(r.([]struct{ k []byte })) == 2)
+			n, threshold = 2, 2
+			vCover("alphabet-shrunk-with-ballots-pending")
+		}
+		c := vInt("caller" + stepTags[s%6] + string([]byte{byte('a' + s/6)}))
+		vAssume(c >= 0 && c <= 2)
+		forA := s == 0 || s == 1 || s == 4 || s == 5
+		id, key := idB, []byte("keyB")
+		val := []byte{'b', byte('0' + s)}
+		if forA {
+			id, key = idA, []byte("keyA")
+			val = []byte{'a', byte('0' + s)}
+		}
+		for i := 0; i < 3; i++ {
+			vSign(vAcct(alTags[i]), c == i)
+		}
+		vSign(stranger, true)
+		done, _ := vInvoke("neofs", "setConfig", id, key, val)
+		if c >= n {
+			vCoverIf(s > 3, "dropped-key-votes")
+			vAssert(!done && vEventCount() == 0, "C17/invocation-by-a-non-member-is-rejected")
+		} else {
+			vAssert(done, "C17/member-invocation-is-accepted")
+			if vote2(forA, c, threshold) {
+				vCoverIf(s > 3, "decision-fires-under-the-new-threshold")
+				vAssert(len(vEvents("neofs", "SetConfig")) == 1, "C17/exactly-one-notification-when-the-threshold-is-reached")
+				if forA {
+					valA = val
+				} else {
+					valB = val
+				}
+			} else {
+				vAssert(vEventCount() == 0, "C17/no-action-before-the-threshold")
+			}
+		}
+		_, ra := vRead("neofs", "config", []byte("keyA"))
+		_, rb := vRead("neofs", "config", []byte("keyB"))
+		vAssert((valA == nil) == (ra == nil) && (valB == nil) == (rb == nil), "C17/effect-exactly-when-2n/3+1-distinct-members-voted")
+		if valA != nil && ra != nil {
+			vAssert(vEq(ra.([]byte), valA), "C17/effect-exactly-when-2n/3+1-distinct-members-voted")
+		}
+		if valB != nil && rb != nil {
+			vAssert(vEq(rb.([]byte), valB), "C17/effect-exactly-when-2n/3+1-distinct-members-voted")
+		}
+	}
+}
